@@ -173,7 +173,9 @@ Inductive call :=
 (* environment *)
 | CFdWrite (fd : N) | CFire (m : modid) (k : skind) (key : N) | CFireTick
 | CSetErrno (e : Z)
-| CLive.
+| CLive
+(* the call is made by ANOTHER thread, which holds its own context (own = true) or none *)
+| CForeign (own : bool) (c : call).
 
 Record modspec := mkMS {
   ms_name : N; ms_slot : nat;
